@@ -9,38 +9,38 @@ namespace BqVerif.Graph
 
 /-! ### `eraseDups` and lengths -/
 
-theorem length_eraseDups_le {α} [BEq α] [LawfulBEq α] :
+theorem rel_length_eraseDups_le {α} [BEq α] [LawfulBEq α] :
     ∀ (l : List α), l.eraseDups.length ≤ l.length
   | [] => by simp
   | a :: as => by
     rw [List.eraseDups_cons]
     have h1 := List.length_filter_le (fun b => !b == a) as
     have : (as.filter fun b => !b == a).length < (a :: as).length := by simp; omega
-    have ih := length_eraseDups_le (as.filter fun b => !b == a)
+    have ih := rel_length_eraseDups_le (as.filter fun b => !b == a)
     simp only [List.length_cons]; omega
 termination_by l => l.length
 
-theorem nodup_of_length_eraseDups {α} [BEq α] [LawfulBEq α] :
+theorem rel_nodup_of_length_eraseDups {α} [BEq α] [LawfulBEq α] :
     ∀ (l : List α), l.eraseDups.length = l.length → l.Nodup
   | [], _ => by simp
   | a :: as, h => by
     rw [List.eraseDups_cons] at h
     have h1 := List.length_filter_le (fun b => !b == a) as
-    have h2 := length_eraseDups_le (as.filter fun b => !b == a)
+    have h2 := rel_length_eraseDups_le (as.filter fun b => !b == a)
     simp only [List.length_cons] at h
     have hf : (as.filter fun b => !b == a).length = as.length := by omega
     have hall := List.length_filter_eq_length_iff.1 hf
     have hf' : (as.filter fun b => !b == a) = as := List.filter_eq_self.2 hall
     rw [hf'] at h
-    have ih := nodup_of_length_eraseDups as (by omega)
+    have ih := rel_nodup_of_length_eraseDups as (by omega)
     rw [List.nodup_cons]
     refine ⟨fun hm => ?_, ih⟩
     have := hall a hm
     simp at this
 
-theorem length_eraseDups_eq_iff {α} [BEq α] [LawfulBEq α] (l : List α) :
+theorem rel_length_eraseDups_eq_iff {α} [BEq α] [LawfulBEq α] (l : List α) :
     l.eraseDups.length = l.length ↔ l.Nodup :=
-  ⟨nodup_of_length_eraseDups l, fun h => by rw [eraseDups_eq_self_of_nodup l h]⟩
+  ⟨rel_nodup_of_length_eraseDups l, fun h => by rw [eraseDups_eq_self_of_nodup l h]⟩
 
 /-! ### maximal_matching -/
 
@@ -116,7 +116,7 @@ theorem validMatching_iff (g : G) (ignored res : List (Nat × Nat)) :
           ∃ f ∈ res, f.1 = e.1 ∨ f.2 = e.1 ∨ f.1 = e.2 ∨ f.2 = e.2) := by
   have hmid : ((res.flatMap (fun e => [e.1, e.2])).eraseDups.length == 2 * res.length) = true ↔
       (ends res).Nodup := by
-    rw [beq_iff_eq, ← length_ends res, ← length_eraseDups_eq_iff]
+    rw [beq_iff_eq, ← length_ends res, ← rel_length_eraseDups_eq_iff]
     rfl
   unfold validMatching
   rw [Bool.and_eq_true, Bool.and_eq_true, hmid, nodup_ends_iff, List.all_eq_true, List.all_eq_true]
@@ -1064,7 +1064,7 @@ theorem spanOK_no_back (g : G) (res : List (Nat × Nat)) : ∀ (seen : List Nat)
       exact this (by simp [hx1])
     · exact ih _ h.2 a b h1 h2
 
-theorem eq_of_snd_eq : ∀ (res : List (Nat × Nat)), (res.map (·.2)).Nodup →
+theorem rel_eq_of_snd_eq : ∀ (res : List (Nat × Nat)), (res.map (·.2)).Nodup →
     ∀ x ∈ res, ∀ y ∈ res, x.2 = y.2 → x = y := by
   intro res
   induction res with
@@ -1102,7 +1102,7 @@ theorem parent_unique (h : TreeL g root M) {p p' c : Nat} (h1 : (p, c) ∈ M) (h
     p = p' := by
   have hnd := h.nodup
   simp only [List.cons_append, List.nil_append, List.nodup_cons] at hnd
-  have := eq_of_snd_eq M hnd.2 _ h1 _ h2 rfl
+  have := rel_eq_of_snd_eq M hnd.2 _ h1 _ h2 rfl
   simpa using this
 
 theorem child_ne_root (h : TreeL g root M) {p c : Nat} (h1 : (p, c) ∈ M) : c ≠ root := by
